@@ -778,7 +778,15 @@ def load_local_known(ctx):
 
 def run(ctx):
     ctx.build(FILES)
-    load_local_known(ctx)
+    seen_sig = {}
+
+    def report(sig, what, d, found_input=True):
+        """ctx.violation, at most 3 replay files per signature and run."""
+        seen_sig[sig] = seen_sig.get(sig, 0) + 1
+        if seen_sig[sig] <= 3:
+            ctx.violation(sig, what, d, found_input=found_input)
+
+    pass  # known findings come from /verif/known_findings.json only
     rng = ctx.rng
     quick = ctx.tier == 'quick'
     ctx.cov['rule'] = (
@@ -839,7 +847,7 @@ def run(ctx):
         except Exception as e:      # noqa  (valid input: an exception contradicts the property)
             d = describe_image(c)
             d['hseed'] = seed
-            ctx.violation(f'ImagePSF:exception:{type(e).__name__}', f'ImagePSF raised on a valid input: {e!s:.200}', d)
+            report(f'ImagePSF:exception:{type(e).__name__}', f'ImagePSF raised on a valid input: {e!s:.200}', d)
             continue
         for g, v in c['stats'].items():
             ctx.stat('image_' + g, v)
@@ -854,7 +862,7 @@ def run(ctx):
         if not np.array_equal(vals, fresh, equal_nan=True):
             d = describe_image(c)
             d['hseed'] = seed
-            ctx.violation('ImagePSF:history', 'result after evaluate/copy history differs from a fresh ImagePSF', d)
+            report('ImagePSF:history', 'result after evaluate/copy history differs from a fresh ImagePSF', d)
         cases.append(c)
         impl.append((vals, bb))
         terms.append(f'(CImage {image_to_coq(c, vals, bb)})')
@@ -864,7 +872,7 @@ def run(ctx):
         try:
             out, keys = run_grid(c)
         except Exception as e:      # noqa
-            ctx.violation(f'GriddedPSFModel:exception:{type(e).__name__}',
+            report(f'GriddedPSFModel:exception:{type(e).__name__}',
                           f'GriddedPSFModel raised on a valid input: {e!s:.200}', describe_grid(c))
             continue
         for g, v in c['stats'].items():
@@ -879,7 +887,7 @@ def run(ctx):
                 if any(not same_as_fill(float(v), c['fill']) for v in o[0]):
                     nontriv = True
                 if not np.array_equal(o[0], o[2], equal_nan=True):
-                    ctx.violation('GriddedPSFModel:history', 'result after evaluate/copy history differs from a '
+                    report('GriddedPSFModel:history', 'result after evaluate/copy history differs from a '
                                   'fresh GriddedPSFModel', describe_grid(c))
         ctx.count_case(describe_grid(c), nontriv)
         cases.append(c)
@@ -891,7 +899,7 @@ def run(ctx):
         try:
             vals = run_analytic(c)
         except Exception as e:      # noqa
-            ctx.violation(f'{AKINDS[c["model"]]}:exception:{type(e).__name__}',
+            report(f'{AKINDS[c["model"]]}:exception:{type(e).__name__}',
                           f'evaluate() raised with stand-in primitives: {e!s:.200}', describe_analytic(c),
                           found_input=False)
             continue
@@ -927,7 +935,7 @@ def run(ctx):
                 d['failures'] = [str(f) for f in fails[:5]]
                 what = ('ImagePSF bounding box is not the sampled extent' if fails[0][0] == -1 else
                         'ImagePSF does not reproduce flux*data at a sample point / fill_value outside')
-                ctx.violation('ImagePSF:bounding_box' if fails[0][0] == -1 else 'ImagePSF:sample-points', what, d)
+                report('ImagePSF:bounding_box' if fails[0][0] == -1 else 'ImagePSF:sample-points', what, d)
         elif c['kind'] == 'grid':
             fails = grid_oracle(c, impl[i][0])
             if fails:
@@ -944,7 +952,7 @@ def run(ctx):
                     sig, what = ('GriddedPSFModel:bilinear',
                                  'result is not the stored ePSF at a node / the bilinear blend in a cell / the '
                                  'nearest-edge value outside the grid')
-                ctx.violation(sig, what, d)
+                report(sig, what, d)
     for i in bad[:25]:
         c = cases[i]
         if i in flagged:
@@ -959,14 +967,14 @@ def run(ctx):
                     continue
                 fails = [f for f in real_checks(rc) if f[0] != SIG_ROT]
                 if fails:
-                    ctx.violation(fails[0][0], fails[0][1], rc)
+                    report(fails[0][0], fails[0][1], rc)
                     found = True
                     break
             if not found:
                 d = describe_analytic(c)
                 d['impl'] = [str(F(float(v))) for v in impl[i]]
                 d['model'] = ctx.coq_eval_term(['C13_Model'], f'amodel_out {analytic_to_coq(c, impl[i])}')
-                ctx.violation(f'correspondence:{AKINDS[c["model"]]}.evaluate', 'evaluate() no longer computes the '
+                report(f'correspondence:{AKINDS[c["model"]]}.evaluate', 'evaluate() no longer computes the '
                               'modelled expression (stand-in run differs from the Coq model)', d, found_input=False)
         else:
             d = describe_image(c) if c['kind'] == 'image' else describe_grid(c)
@@ -980,7 +988,7 @@ def run(ctx):
                 [None if o is None else [repr(float(v)) for v in o[0]] for o in impl[i][0]]
             if c['kind'] == 'grid':
                 d['impl_cache_keys'] = [[str(a), str(b)] for a, b in impl[i][1]]
-            ctx.violation(f'correspondence:C13_Model.{c["kind"]}', 'model and implementation disagree (index '
+            report(f'correspondence:C13_Model.{c["kind"]}', 'model and implementation disagree (index '
                           'classification, cache keys or value) although the property oracle holds', d,
                           found_input=False)
 
@@ -996,16 +1004,16 @@ def run(ctx):
         ctx.stat('analytic_real_theta', 'n/a' if th is None else ('multiple_of_90' if th % 90 == 0 else 'other'))
         ctx.count_case(rc, True)
         for sig, msg in fails:
-            ctx.violation(sig, msg, rc)
+            report(sig, msg, rc)
     # the Coq refutation witness of defect 17 replayed on the implementation
     wit = dict(kind='real', name='GaussianPRF',
                params=dict(flux=1.0, x_0=0.5, y_0=0.5, x_fwhm=0.2, y_fwhm=0.2, theta=45.0))
     for sig, msg in real_checks(wit):
-        ctx.violation(sig, msg, wit)
+        report(sig, msg, wit)
     # the constant that links sigma and FWHM
     import photutils.psf.functional_models as fm
     if abs(fm.GAUSSIAN_FWHM_TO_SIGMA - F2S) > 1e-15:
-        ctx.violation('GAUSSIAN_FWHM_TO_SIGMA', 'constant differs from 1/(2 sqrt(2 ln 2))',
+        report('GAUSSIAN_FWHM_TO_SIGMA', 'constant differs from 1/(2 sqrt(2 ln 2))',
                       {'kind': 'const', 'value': repr(fm.GAUSSIAN_FWHM_TO_SIGMA)})
 
 
